@@ -90,7 +90,20 @@ def oracle(case, rng, thorough=False):
             x[k + 1] = A @ x[k] + B @ u[k] + 0.01 * rs.randn(nx)
         out.append((l, np.hstack((x, u))))
     X = st.ref_combine(out, ep)
+    if ep and len(out) > 1 and rng.random() < 0.6:
+        # interleave the episodes' rows (each episode keeps its own time order)
+        cursors = {l: 0 for l, _ in out}
+        blocks = dict(out)
+        rows = []
+        while any(cursors[l] < blocks[l].shape[0] for l in cursors):
+            l = rng.choice([l for l in cursors if cursors[l] < blocks[l].shape[0]])
+            rows.append(np.concatenate(([l], blocks[l][cursors[l]])))
+            cursors[l] += 1
+        X = np.array(rows)
     Xu, Xs = pykoop.shift_episodes(X, n_inputs=nu, episode_feature=ep)
+    # independent reference: the within-episode consecutive pairs, per label
+    Xu_ref = st.ref_combine([(l, Xe[:-1]) for l, Xe in st.ref_split(X, ep)], ep)
+    Xs_ref = st.ref_combine([(l, Xe[1:, :nx]) for l, Xe in st.ref_split(X, ep)], ep)
     # the shifted side never contains inputs / the pairs are within-episode consecutive
     if Xs.shape[1] != e + nx:
         return 'shifted matrix contains input columns', {}
@@ -105,12 +118,16 @@ def oracle(case, rng, thorough=False):
             r1 = mk().fit(X, n_inputs=nu, episode_feature=ep)
             r2 = mk().fit(Xu, Xs, n_inputs=nu, episode_feature=ep)
             r3 = mk().fit(relayout(rng, X, ep), n_inputs=nu, episode_feature=ep)
+            r4 = mk().fit(Xu_ref, Xs_ref, n_inputs=nu, episode_feature=ep)
         except Exception as ex:
             continue
         scale = max(1.0, np.max(np.abs(r1.coef_)))
         tol = 1e-6 if name.startswith('Lmi') else 1e-8
         if r1.coef_.shape != r2.coef_.shape or np.max(np.abs(r1.coef_ - r2.coef_)) > tol * scale:
             return f'{name}: fit(X) differs from fit(X_unshifted, X_shifted)', {'regressor': name}
+        if r1.coef_.shape != r4.coef_.shape or np.max(np.abs(r1.coef_ - r4.coef_)) > tol * scale:
+            return (f'{name}: fit(X) differs from a fit on the within-episode consecutive pairs '
+                    f'(some pair dropped, duplicated or straddling episodes)'), {'regressor': name}
         if np.max(np.abs(r1.coef_ - r3.coef_)) > tol * scale:
             return f'{name}: coef_ changes when episodes are relabelled / reordered', {'regressor': name}
     return None, None
